@@ -267,7 +267,9 @@ def equality_rules(R, lib, consts):
             raise AnalysisError('anchor vanished: operator== for %s' % short)
         f = fs[0]
         pref = 'TZ.' if cls == TZ else 'TZD.'
-        allf = set().union(*arms.values())
+        # every data member but the discriminator takes part in the assignments: a member that belongs to no kind (the processor a
+        # zone happens to use) must not decide the comparison
+        allf = set().union(*arms.values()) | {n_ for n_, _t, _x in lib.fields(cls) if n_ != disc}
         vals = {name: consts[pref + name] for name in arms}
         other = max(vals.values()) + 1
         rows, why = equality_table(lib, f, allf, disc=disc, disc_values=sorted(set(vals.values())), other=other)
@@ -388,6 +390,16 @@ def _all_fn_atoms(p, depth=0):
 
 
 SELFTEST = [
+    # a member that belongs to no kind decides the comparison / the payload is looked at before the kind / the kind through a table
+    dict(id='equality-also-compares-the-processor', file='src/ace_time/TimeZone.h', find='      return (a.mZoneInfo == b.mZoneInfo);\n    default:\n      return false;',
+         replace='      return (a.mZoneInfo == b.mZoneInfo) && (a.mZoneProcessor == b.mZoneProcessor);\n    default:\n      return false;', rule='R3', construct='kTypeBasic'),
+    dict(id='equality-by-zone-id-before-the-kind', file='src/ace_time/TimeZone.h', find='inline bool operator==(const TimeZone& a, const TimeZone& b) {\n  if (a.mType != b.mType) return false;',
+         replace='inline bool operator==(const TimeZone& a, const TimeZone& b) {\n  if (a.getZoneId() != 0 && a.getZoneId() == b.getZoneId()) return true;\n  if (a.mType != b.mType) return false;',
+         rule='R3', construct='discriminator'),
+    dict(id='equality-kinds-through-a-table-silent', file='src/ace_time/TimeZone.h',
+         find='inline bool operator==(const TimeZone& a, const TimeZone& b) {\n  if (a.mType != b.mType) return false;\n  switch (a.mType) {',
+         replace='inline bool operator==(const TimeZone& a, const TimeZone& b) {\n  static const uint8_t kSame[] = {0, 1, 2, 3, 4, 5};\n  if (a.mType != b.mType) return false;\n'
+                 '  switch (a.mType < 6 ? kSame[a.mType] : a.mType) {', expect='silent'),
     dict(id='zoneid-type-renumbered', file='src/ace_time/TimeZoneData.h', find='static const uint8_t kTypeZoneId = 2;',
          replace='static const uint8_t kTypeZoneId = 4;', rule='R1', construct=':zone'),
     dict(id='processor-kinds-renumbered', file='src/ace_time/ZoneProcessor.h', find='static const uint8_t kTypeBasic = 2;',
